@@ -439,8 +439,17 @@ def _apply(op, a, t):
             return np.eye(3)
         if op == "rotapply":  # scipy Rotation.apply(v) == M @ v
             return np.asarray(a[0]) @ np.asarray(a[1], dtype=float)
-        if op == "quat":  # scalar-last quaternion of a rotation matrix, canonical sign not enforced
-            return _R.from_matrix(a[0]).as_quat()
+        if op == "quat":  # quaternion of a rotation matrix; a[1]: canonical (w >= 0), a[2]: scalar_first
+            q = _R.from_matrix(a[0]).as_quat(canonical=bool(a[1]) if len(a) > 1 else False)
+            if not (len(a) > 1 and a[1]):
+                # the sign of a non-canonical quaternion is arbitrary: pick it pseudo-randomly
+                if int(abs(float(np.sum(q))) * 1e6) % 2:
+                    q = -q
+            if len(a) > 2 and a[2]:
+                q = np.roll(q, 1)
+            return q
+        if op == "trace":
+            return np.trace(np.asarray(a[0]))
         if op == "sel":
             return a[0]
         if op == "call":
